@@ -6,6 +6,7 @@ TB = ("Trusted: clang 14 parser / overload resolution / CFG builder, the bppx ex
 ENGINES = [
     {"name": "bppx", "path": "tool/bppx.cc", "serves_properties": [], "kind_free_text": "libTooling extractor: typed AST + clang CFG of every function under /repo/src as JSON facts"},
     {"name": "E1", "path": "bppverif/e1.py", "serves_properties": [], "kind_free_text": "CFG queries: guard facts on branch edges, dominance by guards, must-pass-through, who-writes"},
+    {"name": "E2", "path": "bppverif/e2.py", "serves_properties": ["C04", "C05", "C07"], "kind_free_text": "SymBounds: index ranges and container dimensions as polynomials over size symbols; facts from throwing guards, resize calls, callee post-conditions and size summaries; proof by non-negative-coefficient test modulo Gaussian elimination of the equalities; refutation only with a witness shape whose reachability is decided by control dependence"},
     {"name": "E3", "path": "bppverif/orderai.py", "serves_properties": [], "kind_free_text": "abstract interpretation of comparison-only functions over all order types (exact for its clause)"},
     {"name": "E6", "path": "bppverif/e6.py", "serves_properties": ["C15"], "kind_free_text": "cache-invalidation completeness: interprocedural summaries of dependency writes and invalidations over the CFG"},
     {"name": "E8", "path": "bppverif/c18.py", "serves_properties": ["C18", "C09"], "kind_free_text": "kind / polarity typing of arguments (sampler conventions, strict vs inclusive flags)"},
@@ -15,7 +16,9 @@ ENGINES = [
 ]
 
 NOTES = ("Static analysis only: every check re-extracts facts from /repo's working tree (clang AST+CFG) and evaluates repository-specific rules. "
-         "Exit 0 = decided clauses hold (KNOWN-FINDING lines for recorded defects), 1 = VIOLATION, 2 = analysis broken (anchor vanished, floor not met, parse error).")
+         "Exit 0 = decided clauses hold (KNOWN-FINDING lines for recorded defects), 1 = VIOLATION, 2 = analysis broken (anchor vanished, floor not met, parse error). "
+         "Thorough tier = quick analysis + the property's witness mutants (witness/<id>/*.patch) each applied to a scratch copy of the current tree and re-analysed: every one must be refuted with the mutated construct named, "
+         "otherwise the checker is reported broken (exit 2). Nothing is executed in either tier.")
 
 CLAIMED = {
     "C01": dict(
